@@ -17,6 +17,9 @@ import (
 	"hash/fnv"
 
 	"github.com/graphql-go/graphql"
+	"github.com/graphql-go/graphql/gqlerrors"
+	"github.com/graphql-go/graphql/language/ast"
+	"github.com/graphql-go/graphql/language/parser"
 	"verif/harness/hx"
 )
 
@@ -27,6 +30,9 @@ type world struct {
 	failed []string // addresses at which a failure was produced, in execution order
 	calls  int      // resolver invocations
 	modes  map[string]int
+	// addresses whose resolver returned or panicked with a hand-built *gqlerrors.Error POINTER carrying foreign
+	// nodes and a foreign path (the executor's pass-through for its own re-thrown errors lets these through)
+	foreignPtr []string
 }
 
 var theWorld *world
@@ -59,6 +65,100 @@ func addrOf(p graphql.ResolveParams) string {
 	return parent + "/" + keyOf(p)
 }
 
+// ---- errors taken from ANOTHER execution (gateway-style resolvers)
+
+var innerSchema graphql.Schema
+var foreignField ast.Node // field node `zzz` of the foreign document "{ aaaaaaaaaaaaaaa { zzz } }" (offset 20, 1:21)
+
+var foreignPath = []interface{}{"x", 7, "y"}
+
+const foreignDocText = "{ aaaaaaaaaaaaaaa { zzz } }"
+
+func initForeign() error {
+	item := graphql.NewObject(graphql.ObjectConfig{Name: "Item", Fields: graphql.Fields{
+		"boom": &graphql.Field{Type: graphql.String, Resolve: func(p graphql.ResolveParams) (interface{}, error) {
+			return nil, errors.New("inner boom")
+		}},
+	}})
+	var err error
+	innerSchema, err = graphql.NewSchema(graphql.SchemaConfig{Query: graphql.NewObject(graphql.ObjectConfig{Name: "Query", Fields: graphql.Fields{
+		"items": &graphql.Field{Type: graphql.NewList(item), Resolve: func(p graphql.ResolveParams) (interface{}, error) {
+			return []interface{}{1}, nil
+		}},
+	}})})
+	if err != nil {
+		return err
+	}
+	doc, err := parser.Parse(parser.ParseParams{Source: foreignDocText})
+	if err != nil {
+		return err
+	}
+	foreignField = doc.Definitions[0].(*ast.OperationDefinition).SelectionSet.Selections[0].(*ast.Field).SelectionSet.Selections[0].(*ast.Field)
+	return nil
+}
+
+// innerFormatted runs a different document through graphql.Do (as a gateway resolver would) and returns its field
+// error: message "inner boom", location 1:11, path [items 0 boom] — all belonging to the INNER request.
+func innerFormatted() gqlerrors.FormattedError {
+	res := graphql.Do(graphql.Params{Schema: innerSchema, RequestString: "{ items { boom } }"})
+	if len(res.Errors) != 1 {
+		panic("harness: inner request did not produce exactly one error")
+	}
+	return res.Errors[0]
+}
+
+// handBuilt is a located error made by user code with nodes, position and path of something else.
+func handBuilt(addr string) *gqlerrors.Error {
+	return gqlerrors.NewErrorWithPath("hand built "+addr, []ast.Node{foreignField}, "", nil, nil, foreignPath, errors.New("orig"))
+}
+
+// foreignFailure produces failure mode k (0..10) with an error taken from another execution. Every mode must end as
+// ONE error of the outer response located at the outer field and carrying the outer path.
+func foreignFailure(w *world, a string, k uint64) (interface{}, error) {
+	switch k {
+	case 0:
+		w.fail(a, "foreign:formatted-error-of-inner-Do")
+		return nil, innerFormatted()
+	case 1:
+		w.fail(a, "foreign:pointer-to-formatted-error")
+		fe := innerFormatted()
+		return nil, &fe
+	case 2:
+		w.fail(a, "foreign:hand-built-error-by-value")
+		return nil, *handBuilt(a)
+	case 3:
+		w.fail(a, "foreign:wrapped-formatted-error")
+		return nil, fmt.Errorf("wrapped: %w", innerFormatted())
+	case 4:
+		w.fail(a, "foreign:wrapped-hand-built-error")
+		return nil, fmt.Errorf("wrapped: %w", handBuilt(a))
+	case 5:
+		w.fail(a, "foreign:panic-formatted-error")
+		panic(innerFormatted())
+	case 6:
+		w.fail(a, "foreign:panic-hand-built-error-by-value")
+		panic(*handBuilt(a))
+	case 7:
+		return func() (interface{}, error) {
+			w.fail(a, "foreign:thunk-formatted-error")
+			return nil, innerFormatted()
+		}, nil
+	case 8:
+		return func() (interface{}, error) {
+			w.fail(a, "foreign:thunk-hand-built-error")
+			return nil, handBuilt(a)
+		}, nil
+	case 9:
+		w.fail(a, "foreign:hand-built-error-POINTER")
+		w.foreignPtr = append(w.foreignPtr, a)
+		return nil, handBuilt(a)
+	default:
+		w.fail(a, "foreign:panic-hand-built-error-POINTER")
+		w.foreignPtr = append(w.foreignPtr, a)
+		panic(handBuilt(a))
+	}
+}
+
 func leafResolver(val interface{}) graphql.FieldResolveFn {
 	return func(p graphql.ResolveParams) (interface{}, error) {
 		w := theWorld
@@ -67,7 +167,10 @@ func leafResolver(val interface{}) graphql.FieldResolveFn {
 		if h%4 != 0 {
 			return val, nil
 		}
-		switch (h / 4) % 5 {
+		if (h/4)%2 == 1 {
+			return foreignFailure(w, a, (h/8)%11)
+		}
+		switch (h / 8) % 5 {
 		case 0:
 			w.fail(a, "return-error")
 			return nil, errors.New("boom " + a)
@@ -96,9 +199,16 @@ func nonNullLeafResolver(p graphql.ResolveParams) (interface{}, error) {
 	if h%5 != 0 {
 		return "nn", nil
 	}
-	if (h/5)%2 == 0 {
+	switch (h / 5) % 4 {
+	case 0:
 		w.fail(a, "nonnull-error")
 		return nil, errors.New("nn boom " + a)
+	case 1:
+		w.fail(a, "nonnull-foreign:formatted-error-of-inner-Do")
+		return nil, innerFormatted()
+	case 2:
+		w.fail(a, "nonnull-foreign:wrapped-hand-built-error")
+		return nil, fmt.Errorf("wrapped: %w", handBuilt(a))
 	}
 	w.fail(a, "nonnull-null")
 	return nil, nil
@@ -172,6 +282,9 @@ func intListResolver(p graphql.ResolveParams) (interface{}, error) {
 }
 
 func buildSchema() (graphql.Schema, error) {
+	if err := initForeign(); err != nil {
+		return graphql.Schema{}, err
+	}
 	var objType *graphql.Object
 	named := graphql.NewInterface(graphql.InterfaceConfig{
 		Name:        "Named",
